@@ -138,6 +138,7 @@ Proof.
   - unfold do_set_version. destruct v as [x|]; [|discriminate].
     intros H. destruct (swap_persist_spec _ _ _ _ _ H) as (_&_&_&_&[(_&A&B)|(E&_)]); [congruence|discriminate].
   - unfold do_set_mode. destruct (negb (mode_valid (rm_mode c))); [discriminate|].
+    cbv zeta in *; set (cn := norm_rmode c) in *; clearbody cn; try clear c; rename cn into c.
     match goal with |- context [persist ?a ?b ?c] => destruct (persist a b c) as [s1 ok] eqn:E end.
     destruct (persist_spec _ _ _ _ _ E) as (A&_&_&_&_&G). destruct ok; cbn [negb]; [|discriminate].
     unfold update_mode.
@@ -221,6 +222,7 @@ Proof.
   - unfold do_set_version in H. destruct v as [x|]; [|inv H; reflexivity].
     destruct (swap_persist_spec _ _ _ _ _ H) as (_&_&_&_&[(E&_)|(_&E)]); [congruence|exact E].
   - unfold do_set_mode in H. destruct (negb (mode_valid (rm_mode c))); [inv H; reflexivity|].
+    cbv zeta in *; set (cn := norm_rmode c) in *; clearbody cn; try clear c; rename cn into c.
     match type of H with context [persist ?a ?b ?c] => destruct (persist a b c) as [s1 ok] eqn:E end.
     destruct (persist_spec _ _ _ _ _ E) as (A&_&_&_&_&_). destruct ok; cbn [negb] in H.
     2:{ inv H. cbn. rewrite A. cbn. apply with_rm_back. }
@@ -281,6 +283,7 @@ Proof.
   - unfold do_set_version in H. destruct v as [x|]; [|inv H; reflexivity].
     destruct (swap_persist_spec _ _ _ _ _ H) as (E&_); exact E.
   - unfold do_set_mode in H. destruct (negb (mode_valid (rm_mode c))); [inv H; reflexivity|].
+    cbv zeta in *; set (cn := norm_rmode c) in *; clearbody cn; try clear c; rename cn into c.
     match type of H with context [persist ?a ?b ?c] => destruct (persist a b c) as [s1 ok] eqn:E end.
     destruct (persist_spec _ _ _ _ _ E) as (_&B&_). destruct ok; cbn [negb] in H; [|inv H; exact B].
     destruct (update_mode s1 c f) as [s2 ok2] eqn:Eu.
@@ -385,6 +388,7 @@ Proof.
   - unfold do_set_version in H. destruct v as [x|]; [|inv H; exact I].
     destruct (swap_persist_spec _ _ _ _ _ H) as (A&B&C&_). unfold rule_inv in *. rewrite A, B, C. exact I.
   - unfold do_set_mode in H. destruct (negb (mode_valid (rm_mode c))); [inv H; exact I|].
+    cbv zeta in *; set (cn := norm_rmode c) in *; clearbody cn; try clear c; rename cn into c.
     match type of H with context [persist ?a ?b ?c] => destruct (persist a b c) as [s1 ok] eqn:E end.
     assert (I1 : rule_inv s1) by (eapply rule_frame_persist; [exact E|exact I]).
     destruct ok; cbn [negb] in H; [|inv H; exact I1].
@@ -463,6 +467,7 @@ Proof.
   - unfold do_set_version in H. destruct v as [x|]; [|inv H; exact I].
     destruct (swap_persist_spec _ _ _ _ _ H) as (_&_&C&_&[(_&E&_)|(_&E)]); unfold init_inv in *; rewrite C, E; [cbn|]; exact I.
   - unfold do_set_mode in H. destruct (negb (mode_valid (rm_mode c))); [inv H; exact I|].
+    cbv zeta in *; set (cn := norm_rmode c) in *; clearbody cn; try clear c; rename cn into c.
     match type of H with context [persist ?a ?b ?c] => destruct (persist a b c) as [s1 ok] eqn:E end.
     destruct (persist_spec _ _ _ _ _ E) as (A&_&_&D&_).
     destruct ok; cbn [negb] in H.
